@@ -95,11 +95,13 @@ keys and deals by index, responses by (dealer, responder) since fix 41ce4e1): if
 after the registration, in any order, any number of times – `Loop` hands the waiting stage exactly
 one batch, with exactly one message per key.  (Without de-duplication this is false: F11.) -/
 theorem complete_delivery_partial {M κ : Type} [DecidableEq κ] (key : M → κ) (K : List κ) (hK : K.Nodup)
-    (evs : List (PEv M)) (hok : OkEvs key K K.length false evs) (hreg : endsRegistered false evs = true)
-    (hall : ∀ x ∈ K, x ∈ msgKeys key evs) :
+    (evs : List (PEv M)) (hok : OkEvs (fun _ => True) key K K.length false evs)
+    (hreg : endsRegistered false evs = true) (hall : ∀ x ∈ K, x ∈ msgKeys key evs) :
     ∃ b, (pairRun (fun a b => decide (key a = key b)) evs).2 = some b ∧ (b.map key).Nodup ∧
-      b.length = K.length ∧ (∀ x ∈ b.map key, x ∈ K) ∧ (∀ x ∈ K, x ∈ b.map key) :=
-  pair_complete key K hK evs hok hreg hall
+      b.length = K.length ∧ (∀ x ∈ b.map key, x ∈ K) ∧ (∀ x ∈ K, x ∈ b.map key) := by
+  obtain ⟨b, h1, h2, h3, h4, h5, _⟩ :=
+    pair_complete (fun _ => True) (fun a b => decide (key a = key b)) key (fun _ _ _ _ => rfl) K hK evs hok hreg hall
+  exact ⟨b, h1, h2, h3, h4, h5⟩
 
 /-! ### non-vacuity: three members over ℚ (`g = 1`), keys 5, 7, 9, polynomials of length 2 -/
 
